@@ -88,6 +88,7 @@ structure Attempt where
   terminated : Bool := false               -- `"terminated" in results`
   joined : Bool := false                   -- the join completed and handed over
   retry : Nat := 0                         -- RetryCount carried in the branch info
+  fullRange : Bool := false                -- terminated by the back stop: over its whole range, iterations not launched yet included
   deriving Repr, DecidableEq
 
 inductive Out where
@@ -170,7 +171,7 @@ def setRange (lo hi : Nat) (f : Slot → Slot) (x : Attempt) : Attempt :=
 /-- does check_pending_results find a result of the entry pending: a slot without result in its terminated range —
 every slot without result if it is not terminated (then only looked at once the execution has ended) -/
 def Attempt.waits (x : Attempt) : Bool :=
-  x.slots.any Slot.unresolved || (!x.terminated && x.slots.any (fun sl => sl == .unlaunched))
+  x.slots.any Slot.unresolved || ((!x.terminated || x.fullRange) && x.slots.any (fun sl => sl == .unlaunched))
 
 def values (ss : List Slot) : List Nat :=
   ss.filterMap (fun s => match s with | .done v => some v | _ => none)
@@ -225,7 +226,7 @@ def parentTerminated (atts : List Attempt) (x : Attempt) : Bool :=
 
 /-- the slot of a dropped event's branch -/
 def markOwn (i : Nat) (x : Attempt) : Attempt :=
-  { x with seen := true, terminated := true, slots := x.slots.modify i (fun _ => .terminated) }
+  { x with seen := true, terminated := true, fullRange := false, slots := x.slots.modify i (fun _ => .terminated) }
 
 /-- the slot of an enclosing attempt (if its results entry exists): a CAUGHT slot is left as it is (its continuation
 event is outstanding) -/
@@ -414,7 +415,7 @@ def step (q : Quirks) (s : Proto) : Inp → Proto × List Out
        else s1, [.progress a lo])
     | (.dropped, s1, outs) =>      -- the iterations of that batch will never be launched: nothing is pending for them
       if s1.hasMeta then
-        let r := checkPending q { s1 with atts := upd s1.atts a (setRange lo hi (fun sl => if sl == .unlaunched then .terminated else sl)) }
+        let r := checkPending q { s1 with atts := upd s1.atts a (setRange lo hi (fun sl => if sl == .unlaunched || sl == .pending then .terminated else sl)) }
         (r.1, outs ++ r.2)
       else (s1, outs)
     | (.lost, s1, outs) => (s1, outs)
@@ -451,9 +452,9 @@ def step (q : Quirks) (s : Proto) : Inp → Proto × List Out
   | .backstop =>
     if !s.hasMeta then (s, [])
     else if s.ended.isSome then ({ s with atts := [], hasMeta := false }, [.discard])     -- ea96e63 / 513dbde
-    else
+    else      -- every results entry is marked terminated over its whole range (until a dropped event narrows it again)
       let s1 := { s with ended := some false,
-                         atts := s.atts.map (fun x => if x.seen then { x with terminated := true } else x) }
+                         atts := s.atts.map (fun x => if x.seen then { x with terminated := true, fullRange := true } else x) }
       let r := checkPending q s1
       (r.1, .endExecution false :: r.2)
 
